@@ -140,7 +140,8 @@ func (kgdb *KVInterfaceGDB) GetVertexIndexList() <-chan *gripql.IndexID {
 		fields := kgdb.kvg.idx.ListFields()
 		for _, f := range fields {
 			t := strings.Split(f, ".")
-			if len(t) > 3 {
+			//the index holds the fields of every graph: report only this graph's vertex fields
+			if len(t) > 3 && t[0] == kgdb.graph && t[1] == "v" {
 				out <- &gripql.IndexID{Graph: kgdb.graph, Label: t[2], Field: t[3]}
 			}
 		}
